@@ -147,13 +147,16 @@ func (r *Runner) scan(rt []rune, textInfo *matchText, textstart, previousMatchLe
 	if execute == nil {
 		execute = executeDefault
 	}
+	findFirstChar = verifWrapFind(r, findFirstChar)
 
 	minRequiredLength := 0
 	if r.code != nil && r.code.FindOptimizations != nil {
 		minRequiredLength = r.code.FindOptimizations.MinRequiredLength
 	}
+	minRequiredLength = verifMinLen(r, minRequiredLength)
 
 	r.initMatch(textInfo)
+	verifScanStart(r)
 
 	// An empty previous match must not be returned again. Keep Runtextstart at
 	// the previous match position for \G, but move the candidate scan position.
@@ -234,6 +237,7 @@ func executeDefault(r *Runner) error {
 	}
 
 	for {
+		verifStep(r)
 
 		if r.debug {
 			r.dumpState()
@@ -954,6 +958,10 @@ func executeDefault(r *Runner) error {
 			continue
 
 		case syntax.UpdateBumpalong:
+			if verifIsNaive(r.re) {
+				r.advance(0)
+				continue
+			}
 			// UpdateBumpalong should only exist in the code stream at such a point where the root
 			// of the backtracking stack contains the runtextpos from the start of this Go call. Replace
 			// that tracking value with the current runtextpos value if it's greater.
@@ -1073,6 +1081,7 @@ func (r *Runner) growTrack() bool {
 	if limit := r.re.optimizations.MaxBacktrackingStackSize; limit >= 0 && newLen > limit {
 		newLen = limit
 	}
+	verifGrow(r, oldLen, newLen)
 	if newLen <= oldLen {
 		return false
 	}
@@ -2229,6 +2238,7 @@ func (re *Regexp) getRunner() *Runner {
 	if re.runnerPool == nil {
 		re.initCaches()
 	}
+	verifPoint("getRunner", re, 0, 0)
 	return re.runnerPool.Get().(*Runner)
 }
 
@@ -2239,6 +2249,7 @@ func (re *Regexp) putRunner(r *Runner) {
 	if r.runmatch != nil {
 		r.runmatch.text = nil
 	}
+	verifPoint("putRunner", r, len(r.runtrack), 0)
 	re.runnerPool.Put(r)
 }
 
